@@ -181,6 +181,31 @@ theorem C05_truncate_reopen_after_failed_roll_keeps :
     res.2.disk.get? wPath = some [1, 2, 3] ∧ res.2.disk.get? (wRoller.nameOf 0) = none := by
   decide +kernel
 
+/-! ### failing encoders (finding `C05/encoder-error-torn`)
+
+The theorems above are about histories of `Op`s, i.e. appends whose encoder succeeds. The driver
+also runs appends whose encoder fails after some slices (`XOp.appendFail`, mirroring the code:
+`encode(…)?` returns at once, nothing is flushed or discarded). On the `Op` fragment the extended
+semantics is the old one; with a failing encoder that has written something, a torn record reaches
+the file — the statement's "extras are whole" is false of the code as it is. -/
+
+theorem C05_traceX_of_ops (cfg : Cfg σ) (s : St σ) (ops : List Op) :
+    traceX cfg s (ops.map XOp.op) = trace cfg s ops := by
+  induction ops generalizing s with
+  | nil => rfl
+  | cons op ops ih => simp [traceX, trace, applyX, ih]
+
+/-- witness (test on a sample): the encoder of `[1][2]` fails after its first slice; the append
+returns `Err`, and after the next, successful append of `[3]` the active file is `[1, 3]`: the torn
+`[1]` glued in front of `[3]` -/
+theorem C05_encoder_error_tears_record :
+    let cfg : Cfg Unit := { path := ['a'], appendMode := true, trig := sizeTrigger 100,
+                            roll := fun p f d => deleteRoll p f d }
+    let tr := traceX cfg (init cfg Disk.empty () 0) [.appendFail [[1], [2]] 1 none, .op (.append [[3]] none)]
+    tr.map (fun e => (e.1.map (·.res), e.2.disk.get? ['a'])) =
+      [(some .errEncode, some []), (some .ok, some [1, 3])] := by
+  decide +kernel
+
 /-! ### non-vacuity (tests on samples) -/
 
 /-- fixed window base 0 count 2, size limit 2: three rotations, the oldest file is evicted, the
